@@ -423,37 +423,75 @@ func (e *Env) localByName(name string) (SVal, bool) {
 			return e.mk(vc.load(e.cur, l), T, nil), true
 		}
 	}
-	// 3. value named by a DebugRef that dominates the current block; prefer the latest
+	// 3. the reaching definition of the source variable: candidates are the phis named after the
+	// variable and the values that DebugRefs attach to it; the right one is the candidate whose
+	// DEFINITION dominates the current point and is deepest in the dominator tree.
 	blk := e.block
 	if blk == nil {
 		blk = vc.curBlock
 	}
+	hasTerm := func(v ssa.Value) bool {
+		if _, ok := vc.vals[v]; ok {
+			return true
+		}
+		if _, isC := v.(*ssa.Const); isC {
+			return true
+		}
+		if ph, isPhi := v.(*ssa.Phi); isPhi && vc.phiOverride[ph] != "" {
+			return true
+		}
+		return false
+	}
+	depth := func(b *ssa.BasicBlock) int {
+		d := 0
+		for x := b; x != nil; x = x.Idom() {
+			d++
+		}
+		return d
+	}
 	var best ssa.Value
-	var bestBlock *ssa.BasicBlock
+	bestDepth, bestIdx := -1, -1
+	consider := func(v ssa.Value) {
+		if !hasTerm(v) {
+			return
+		}
+		d, idx := 0, -1 // parameters and constants: shallowest
+		if in, ok := v.(ssa.Instruction); ok && in.Block() != nil {
+			db := in.Block()
+			_, isPhi := v.(*ssa.Phi)
+			if blk != nil {
+				if db == blk {
+					if !isPhi && e.atHeader {
+						return // defined later in the block than the point of evaluation (its start)
+					}
+				} else if !db.Dominates(blk) {
+					return
+				}
+			}
+			d = depth(db)
+			for k, x := range db.Instrs {
+				if x == in {
+					idx = k
+				}
+			}
+		}
+		if d > bestDepth || (d == bestDepth && idx > bestIdx) {
+			best, bestDepth, bestIdx = v, d, idx
+		}
+	}
 	for _, b := range fn.Blocks {
 		for _, in := range b.Instrs {
+			if ph, ok := in.(*ssa.Phi); ok && ph.Comment == name {
+				consider(ph)
+			}
 			dr, ok := in.(*ssa.DebugRef)
 			if !ok || dr.IsAddr {
 				continue
 			}
-			id, ok := dr.Expr.(interface{ String() string })
-			_ = id
 			if obj := dr.Object(); obj == nil || obj.Name() != name {
 				continue
 			}
-			if _, has := vc.vals[dr.X]; !has {
-				if _, isC := dr.X.(*ssa.Const); !isC {
-					if ph, isPhi := dr.X.(*ssa.Phi); !isPhi || vc.phiOverride[ph] == "" {
-						continue
-					}
-				}
-			}
-			if blk != nil && !(b == blk || b.Dominates(blk)) {
-				continue
-			}
-			if best == nil || bestBlock.Dominates(b) {
-				best, bestBlock = dr.X, b
-			}
+			consider(dr.X)
 		}
 	}
 	if best != nil {
